@@ -18,7 +18,7 @@ from . import byt, tok
 
 I = z3.Int
 OPS = ["read", "read_none", "set_pos", "get_pos", "rewind", "close", "open", "set_pos_s", "set_pos_ms", "get_pos_ms", "get_pos_s"]
-BOUNDS = {"quick": dict(K=2, KF=3), "thorough": dict(K=3, KF=5)}
+BOUNDS = {"quick": dict(K=2, KF=4), "thorough": dict(K=3, KF=5)}
 DEN = 1024
 
 
@@ -173,9 +173,26 @@ def file_harness(L, kind, sw, ch, sr, KF):
         for step in range(KF):
             k = I("k%d" % step)
             args[step] = k
-            use_none = kind != "stdin" and e.choose(2) == 1
+            nops = 1 if kind == "stdin" else 3
+            opi = e.choose(nops)
             if kind == "stdin":
                 e.assume(k >= 0)
+            if opi == 2:
+                # close, check that reading is refused, reopen: a file source starts again at the beginning
+                trace.append("reopen")
+                try:
+                    src.close()
+                    try:
+                        src.read(1)
+                        conds["%d:read while closed raises" % step] = False
+                    except iom.AudioIOError:
+                        pass
+                    src.open()
+                    pos = z3.IntVal(0)
+                except Exception:
+                    conds["%d:reopen" % step] = False
+                continue
+            use_none = opi == 1
             trace.append("read_none" if use_none else "read")
             try:
                 out = src.read(None if use_none else SymInt(k))
@@ -288,6 +305,15 @@ def replay_fn(c):
                     src.position_s = k / DEN
                 elif op == "set_pos_ms":
                     src.position_ms = k
+                elif op == "reopen":
+                    src.close()
+                    try:
+                        src.read(1)
+                        return [("C11: reading a closed %s source does not raise" % c["kind"], desc)]
+                    except rio.AudioIOError:
+                        pass
+                    src.open()
+                    pos = 0
             except Exception as ex:
                 exc = ex
             bad = None
